@@ -8,6 +8,7 @@ import (
 	"go/token"
 	"math/rand"
 	"reflect"
+	"strings"
 
 	"github.com/dave/dst"
 	"github.com/dave/dst/decorator"
@@ -47,6 +48,37 @@ func (v c13LogVisitor) Visit(n dst.Node) dst.Visitor {
 		return nil
 	}
 	return v
+}
+
+type c13LevelVisitor struct {
+	level int
+	log   *[]string
+}
+
+func (v c13LevelVisitor) Visit(n dst.Node) dst.Visitor {
+	if n == nil {
+		*v.log = append(*v.log, fmt.Sprintf("%d:nil", v.level))
+		return nil
+	}
+	*v.log = append(*v.log, fmt.Sprintf("%d:%s", v.level, strings.TrimPrefix(fmt.Sprintf("%T", n), "*dst.")))
+	return c13LevelVisitor{v.level + 1, v.log}
+}
+
+type c13AstLevelVisitor struct {
+	level int
+	log   *[]string
+}
+
+func (v c13AstLevelVisitor) Visit(n ast.Node) ast.Visitor {
+	switch n.(type) {
+	case nil:
+		*v.log = append(*v.log, fmt.Sprintf("%d:nil", v.level))
+		return nil
+	case *ast.Comment, *ast.CommentGroup:
+		return nil
+	}
+	*v.log = append(*v.log, fmt.Sprintf("%d:%s", v.level, strings.TrimPrefix(fmt.Sprintf("%T", n), "*ast.")))
+	return c13AstLevelVisitor{v.level + 1, v.log}
 }
 
 func c13Check(in c13Input) (key, what string) {
@@ -163,6 +195,21 @@ func c13Check(in c13Input) (key, what string) {
 	for i := range ilog {
 		if ilog[i] != log[i] {
 			return "c13-inspect", fmt.Sprintf("Inspect call %d differs from Walk", i)
+		}
+	}
+	// a visitor that hands out a NEW visitor per level (depth tracking): every Visit(nil) must go to
+	// the visitor that was returned for the node being closed -- compared with go/ast's Walk
+	if len(in.Prune) == 0 && in.NilOptional == 0 && !in.Resolver {
+		var dl, al []string
+		dst.Walk(c13LevelVisitor{0, &dl}, f)
+		ast.Walk(c13AstLevelVisitor{0, &al}, af)
+		if len(dl) != len(al) {
+			return "c13-levels", fmt.Sprintf("a depth-tracking visitor logs %d calls under dst.Walk, %d under ast.Walk", len(dl), len(al))
+		}
+		for i := range dl {
+			if dl[i] != al[i] {
+				return "c13-levels", fmt.Sprintf("call %d of a depth-tracking visitor: dst.Walk %q, ast.Walk %q", i, dl[i], al[i])
+			}
 		}
 	}
 	// (4) go/ast traversal of the source, comments removed, mapped to dst; a collapsed
